@@ -46,6 +46,7 @@ def voronoi_complex(sites, box=1.0, margin=0.02, min_edge=0.0):
         if len(set(cyc)) >= 3:
             cells.append(cyc)
             owner.append(si)
+    voronoi_complex.last = (vor, remap)
     return pos, cells, owner
 
 
@@ -65,5 +66,6 @@ def random_tissue(rng, ncells=30, min_edge=0.02, tries=50):
         sites = poisson_sites(rng, n)
         pos, cells, owner = voronoi_complex(sites)
         if len(cells) >= max(3, ncells // 2) and min_edge_length(pos, cells) >= min_edge / math.sqrt(n) * 4:
-            return pos, cells, sites, owner
+            break
+    random_tissue.last = voronoi_complex.last
     return pos, cells, sites, owner
